@@ -451,8 +451,22 @@ def check_tuning(ctx, pkg, name):
     cls = ctx.P.public_class(pkg, name)
     drv = DRIVERS[name]
     if drv not in ctx.P.functions:
-        ctx.undecided(rule, name, cls.module.relpath, f"driver {drv} not found (anchor vanished)")
-        return
+        # the driver may have been renamed: it is the one function the detector's tuning / scoring method hands the data to
+        from .c02 import find_driver_call
+
+        found = None
+        for mname in ("_tune_threshold", "_transform_scores", "_predict"):
+            m_ = ctx.P.lookup_method(cls, mname)
+            cands = find_driver_call(ctx, m_) if m_ is not None else []
+            if len(cands) == 1:
+                found = cands[0][1].qualname
+                break
+        if found is None:
+            ctx.undecided(rule, name, cls.module.relpath, f"driver {drv} not found (anchor vanished)")
+            return
+        drv = found
+    else:
+        drv = ctx.P.functions[drv].qualname
     summ = {drv: _driver_summary(name)}
     ex, paths, st = fit_scenario(ctx, cls, overrides={"threshold_scale": NONE}, summaries=summ)
     loc = ctx.P.lookup_method(cls, "_fit").loc()
